@@ -258,6 +258,14 @@ func c12(run *core.Run, replay string) {
 				cases = append(cases, &entCase{Codec: codec, Shape: []string{"text", "raredom", "random"}[i%3], Size: sz, Seed: run.Seed + int64(i), Prefix: 3, Second: second, Size2: 700})
 			}
 		}
+		// tiny trailing chunks after a full 4 MiB chunk (codecs whose coder state crosses chunks), incompressible data
+		if codec == "FPAQ" || codec == "ANS1" {
+			for q, tail := range []int{1, 2, 3, 31, 33} {
+				for sd := 0; sd < run.Pick(2, 4); sd++ {
+					cases = append(cases, &entCase{Codec: codec, Shape: "random", Size: 4<<20 + tail, Seed: run.Seed*17 + int64(sd), Prefix: 2 + q})
+				}
+			}
+		}
 		// large block sizes in the context (hash sizing of TPAQ/TPAQX) and multi-chunk for the 4 MiB chunk codecs
 		cases = append(cases, &entCase{Codec: codec, Shape: "text", Size: 30000, Seed: run.Seed, Prefix: 5, BlockSz: 4 << 20})
 		cases = append(cases, &entCase{Codec: codec, Shape: "text", Size: 12000, Seed: run.Seed, Prefix: 5, BlockSz: 64 << 20})
